@@ -123,6 +123,22 @@ CLAIMS.update({
                 technique='bounded relational contract checking (conservation, idempotence, equivariance)'),
 })
 
+CLAIMS.update({
+    'C01': dict(level='exploration', engine='bounded+pysym', text=B_NOTE + 'renumbering x insertion order x re-spelling (chython random writer, RDKit) relation on '
+                'decorated atlas graphs (all n! numberings for small n) and the corpus, collisions judged by an independent stereo-aware isomorphism oracle, '
+                'the two documented gaps decided by a symmetry oracle with predicates fixed in advance. Deductive parts (engine P): the hashed tuples of '
+                'Element.__hash__ / Bond.__hash__ are exactly the fields the mechanism names, for all values; one _morgan refinement step is independent of '
+                'the neighbour enumeration order (degree <= 3).',
+                note='Trusted: oracles/iso.py, o01_gaps.py, o01_stereo.py, RDKit as second writer. That class ties occur only between automorphic atoms is a '
+                     'statement about all graphs and not decidable by contracts (DESIGN 5). 4 defect families are known findings.',
+                technique='bounded relational contract checking (+ symbolic frame lemmas on the invariants fed to the refinement)'),
+    'C02': dict(level='exploration', engine='bounded+pysym', text=B_NOTE + 'write -> read comparison atom by atom under the written order for all 32 format-option subsets, '
+                'injectivity over enumerated small graphs and all stereoisomers of sampled molecules. Deductive parts: writer/reader tables mutually inverse, '
+                'closure numbers 1..99, every element symbol (T); sign translation kernel reader(writer(sign)) = sign for every neighbour order (P, shared with C12).',
+                note='Trusted: oracles/o01_stereo.py, RDKit (secondary). Traversal and closure bookkeeping for all graphs: bounded only. 3 defect families known.',
+                technique='bounded round-trip contract checking (+ table lemmas and symbolic sign-translation kernel)'),
+})
+
 NOT_BUILT = 'check under construction in this session - not claimed until its command exists and passes on the unchanged tree'
 
 NOT_APPLICABLE = {}   # pid -> reason (a property that contracts genuinely cannot decide)
